@@ -302,8 +302,24 @@ func isUnsafePointer(t types.Type) bool {
 	return ok && b.Kind() == types.UnsafePointer
 }
 
+// OpaqueTypes lists named struct types modelled as opaque values (one Int), declared by
+// the contract constant "opaquetypes": their fields are never accessed by verified code.
+var OpaqueTypes = map[string]bool{}
+
+func isOpaque(t types.Type) bool {
+	if n, ok := t.(*types.Named); ok {
+		if _, isStruct := n.Underlying().(*types.Struct); isStruct {
+			return OpaqueTypes[n.Obj().Name()] || OpaqueTypes[n.Obj().Pkg().Name()+"."+n.Obj().Name()]
+		}
+	}
+	return false
+}
+
 // SortOf returns the SMT sort representing values of Go type t.
 func (te *TypeEnv) SortOf(t types.Type) string {
+	if isOpaque(t) {
+		return SInt
+	}
 	switch u := t.Underlying().(type) {
 	case *types.Basic:
 		switch {
@@ -355,6 +371,9 @@ func (te *TypeEnv) structSortOf(t types.Type, st *types.Struct) *structSort {
 
 // StructInfo returns field layout info for a struct type.
 func (te *TypeEnv) StructInfo(t types.Type) *structSort {
+	if isOpaque(t) {
+		return nil
+	}
 	st, ok := t.Underlying().(*types.Struct)
 	if !ok {
 		return nil
@@ -446,7 +465,7 @@ func bitWidth(t types.Type) uint {
 
 // rangeFact returns the typing fact for a term of Go type t (true if none).
 func (te *TypeEnv) rangeFact(v Term, t types.Type) Term {
-	switch u := t.Underlying().(type) {
+	switch u := under(t).(type) {
 	case *types.Basic:
 		if lo, hi, ok := intRange(t); ok {
 			return and(le(bigLit(lo), v), le(v, bigLit(hi)))
@@ -495,4 +514,12 @@ func sortedKeys[V any](m map[string]V) []string {
 	}
 	sort.Strings(ks)
 	return ks
+}
+
+// under is t.Underlying(), except that opaque struct types look like a plain word.
+func under(t types.Type) types.Type {
+	if isOpaque(t) {
+		return types.Typ[types.Uintptr]
+	}
+	return t.Underlying()
 }
